@@ -444,7 +444,37 @@ class Interp:
             nel = z3.Int(fresh_name('loop_elems'))
             self.assume(nel >= 0)
             st.stream.append_text(z3.String(fresh_name('loop_out')), nel)
-        if self.path.choose(2, 'abstract-loop-%d' % self.loop_ord.get(s)) == 1:
+        step = spec.get('step')
+        which = self.path.choose(3 if step else 2, 'abstract-loop-%d' % self.loop_ord.get(s))
+        if which == 2:
+            # ONE ARBITRARY ITERATION against its per-iteration contract: the state is the havoc'd one
+            # (any number of earlier iterations), the loop target holds fresh values of the declared
+            # types; `step.ensures` relate the stream before and after this iteration.  The clauses
+            # are not lifted to the loop's exit (the frame above stays what the continuation knows).
+            k = self.loop_ord.get(s)
+            base = '%s.loop#%d' % (self.vc.qual, k)
+            elts = s.target.elts if isinstance(s.target, (ast.Tuple, ast.List)) else [s.target]
+            tys = step.get('types', ['any'] * len(elts))
+            items = [fresh(parse_ty(t), 'iter_item%d' % j) for j, t in enumerate(tys)]
+            for t, x in zip(elts, items):
+                self.assign(t, x)
+            self.ghost['iter_items'] = items
+            if st is not None:
+                self.ghost['iter_S0'] = st.stream.text
+            for r in step.get('requires', []):
+                self.assume(self.spec_bool(r))
+            try:
+                self.exec_block(s.body)
+            except (ContinueLoop, BreakLoop):
+                pass
+            except Raised:
+                self.ghost['loop_failed'] = True
+                raise
+            for j, e in enumerate(step.get('ensures', [])):
+                self.oblige('%s.step[%d]' % (base, j), self.spec_bool(e), 'inv', {'text': e})
+            self.cover('%s.step.cover' % base)
+            raise PathEnd()
+        if which == 1:
             from .k3 import new_sym_exc
             exc = new_sym_exc(self, fresh_name('exc!loop'))
             exc.extra['origin'] = ('loop', self.loop_ord.get(s))
